@@ -1,7 +1,7 @@
 """C12 — a peer never reorders the stream values it has already seen (DESIGN §4/C12)."""
 from rules import lib
 from rules.lib import Prov, show, walk
-from props import common
+from props import common, sides
 
 LEVEL = ("Mechanism level (order pins): the iteration order previous -> current -> new in Stream::iter and slice_iter "
          "(with cursor fields paired to their matrices), compactify numbering generations in the same order with start "
@@ -25,6 +25,7 @@ def first_field(e):
 
 def check(ctx):
     F = ctx.facts("prod")
+    sides.check_sides(ctx, F)
     ctx.clause("R-FLOW Stream::iter / slice_iter chain previous, current, new in that order; cursor fields paired")
     ctx.clause("R-FLOW compactify: update_generations called in the same order with start 0, |prev|, |prev|+|current|")
     ctx.clause("R-TABLE add_value: Previous->previous_values, Current->current_values, New->new_values")
